@@ -49,11 +49,23 @@ def enumerate_paths(fn, limit=4096, noreturn=()):
             edges = cfg.edges(b)
             # constants held by locals at this point of the path (a mode chosen on an earlier branch: what = RESIZE_IN_PLACE)
             known = {}
+            truth_of = {}
             for e_ in path:
+                if e_[0] == "cond" and not isinstance(e_[2], tuple):
+                    c0_ = X.strip(e_[1])
+                    if c0_ is not None:
+                        truth_of[c0_["i"]] = e_[2]
                 if e_[0] == "assign":
                     l_ = X.strip(e_[2]["ch"][0])
                     if l_ is not None and l_.get("k") == "ref" and l_.get("rk") == "local" and l_.get("d") not in taken:
                         cv_ = X.const_val(e_[2]["ch"][1]) if e_[2].get("op") == "=" else None
+                        r_ = X.strip(e_[2]["ch"][1]) if e_[2].get("op") == "=" else None
+                        if cv_ is None and r_ is not None and r_.get("k") == "cond":
+                            # flag = (c ? K1 : K0): the arm this path took through the conditional expression
+                            t0_ = X.strip(r_["ch"][0])
+                            tv_, fv_ = X.const_val(r_["ch"][1]), X.const_val(r_["ch"][2])
+                            if t0_ is not None and t0_["i"] in truth_of and tv_ is not None and fv_ is not None:
+                                cv_ = tv_ if truth_of[t0_["i"]] else fv_
                         if cv_ is None:
                             known.pop(l_["d"], None)
                         else:
